@@ -170,6 +170,14 @@ def replay(recs):
             L2 = g.Line(g.Point(*a), g.Point(*(a + np.array(r["v"]))))
             chk("is_perpendicular(line3,line3)", st, {k: r[k] for k in ("a", "u", "v")}, r["perp"],
                 lambda: g.is_perpendicular(L1, L2), lambda v: bool(v) == r["perp"])
+            # two lines through one point lie in a plane; so does a line with itself (the very same object, a copy, a multiple)
+            chk("Line.is_coplanar(line3)/concurrent", st, {k: r[k] for k in ("a", "u", "v")}, True, lambda: L1.is_coplanar(L2), lambda v: bool(v) is True)
+            chk("Line.is_coplanar(line3)/same-object", st, {k: r[k] for k in ("a", "u")}, True, lambda: L1.is_coplanar(L1), lambda v: bool(v) is True)
+            chk("Line.is_coplanar(line3)/multiple", st, {k: r[k] for k in ("a", "u")}, True, lambda: L1.is_coplanar(g.Line(np.asarray(L1.array) * -2)), lambda v: bool(v) is True)
+            L3 = g.Line(g.Point(*(a + np.array([0, 0, 1]) + np.cross(r["u"], r["v"]))), g.Point(*(a + np.array([0, 0, 1]) + np.cross(r["u"], r["v"]) + np.array(r["v"]))))
+            skew = bool(np.dot(np.array([0, 0, 1]) + np.cross(r["u"], r["v"]), np.cross(r["u"], r["v"])) != 0) and bool(np.any(np.cross(r["u"], r["v"]) != 0))
+            if skew:
+                chk("Line.is_coplanar(line3)/skew", st, {k: r[k] for k in ("a", "u", "v")}, False, lambda: L1.is_coplanar(L3), lambda v: bool(v) is False)
         elif t == "bis":
             l, m = g.Line(np.array(r["l"])), g.Line(np.array(r["m"]))
             o = g.Point(np.array(r["o"]))
